@@ -419,7 +419,7 @@ def bounded(ctx):
     # ---- quoting round trip
     L1 = 3 if quick else 5
     L2 = 2
-    n_rand = 4000 if quick else 300000
+    n_rand = 4000 if quick else 1000000
     ctx.check("quote_roundtrip", "expressible token lists over {a, b, space, tab, ', \", backslash, -, =, e-acute}: every single token of "
               "length <= %d x {single, double} x 3 paddings; every pair of tokens of length <= %d x 4 style combinations x %d "
               "separators; %d seeded random lists of 0-4 tokens of 0-5 characters with random style per token, random "
@@ -448,7 +448,7 @@ def bounded(ctx):
 
     # ---- StringArgs vs ArgvArgs
     Lf = 2 if quick else 3
-    n_rand = 3000 if quick else 150000
+    n_rand = 3000 if quick else 300000
     ctx.check("string_vs_argv", "token lists over %d command-line tokens (command names, '--', short/long options with and without "
               "values, empty, spaced, quoted, backslashed, non-ASCII): all lists of length <= %d and %d seeded random lists of "
               "length %d-6; StringArgs(joined quoted) vs ArgvArgs: tokens, option_tokens, has_token, has_option_token, "
